@@ -99,8 +99,9 @@ Print Assumptions C15_eui64_only_VE_TE.
 (* ---------------------------------------------------------------- host:port *)
 
 (* parse_host_port(escape_ipv6(host) + ':' + str(port)) = (host, port) for EVERY integer port
-   (nothing checks 0..65535) exactly for the hosts rt_host describes: bracketed by escape_ipv6
-   and free of ']', or not bracketed, free of ':' and not starting with '[' *)
+   (nothing checks 0..65535) exactly for the hosts rt_host describes: every host escape_ipv6
+   brackets (the bracketed text is split at its last ']'), or a host it does not bracket that is
+   free of ':' and does not start with '[' *)
 Theorem C15_host_port_roundtrip : forall valid host port,
   parse_host_port (escape_ipv6 valid host ++ [58%N] ++ dec_of_Z port) VNone = Ok (Some host, Some port)
   <-> rt_host valid host = true.
@@ -114,39 +115,38 @@ Theorem C15_host_default_roundtrip : forall valid host (d : option Z),
 Proof. exact host_default_roundtrip_iff. Qed.
 Print Assumptions C15_host_default_roundtrip.
 
-(* the three families: names and IPv4 literals (no ':' and no brackets) ... *)
+(* the three families: names and IPv4 literals (no ':' and no leading '[') ... *)
 Theorem C15_host_port_roundtrip_plain : forall valid host port,
-  has_char 58%N host = false -> has_char 91%N host = false -> has_char 93%N host = false ->
+  has_char 58%N host = false -> prefixb [91%N] host = false ->
   parse_host_port (escape_ipv6 valid host ++ [58%N] ++ dec_of_Z port) VNone = Ok (Some host, Some port).
 Proof. exact host_port_roundtrip_plain. Qed.
 Print Assumptions C15_host_port_roundtrip_plain.
 
-(* ... and IPv6 literals with or without a scope id (what escape_ipv6 brackets), free of ']' *)
+(* ... and IPv6 literals with or without a scope id: EVERYTHING escape_ipv6 brackets, no side
+   condition (the former finding H1 — a scope id containing ']' — is repaired by 03fda28) *)
 Theorem C15_host_port_roundtrip_ipv6 : forall host port,
-  has_char 93%N host = false ->
   parse_host_port (escape_ipv6 true host ++ [58%N] ++ dec_of_Z port) VNone = Ok (Some host, Some port).
 Proof. exact host_port_roundtrip_ipv6. Qed.
 Print Assumptions C15_host_port_roundtrip_ipv6.
 
 Theorem C15_host_default_plain : forall valid host d,
-  host <> [] -> has_char 58%N host = false -> has_char 91%N host = false -> has_char 93%N host = false ->
+  host <> [] -> has_char 58%N host = false -> prefixb [91%N] host = false ->
   parse_host_port (escape_ipv6 valid host) (pv_of d) = Ok (Some host, d).
 Proof. exact host_default_plain. Qed.
 Print Assumptions C15_host_default_plain.
 
 Theorem C15_host_default_ipv6 : forall host d,
-  has_char 93%N host = false ->
   parse_host_port (escape_ipv6 true host) (pv_of d) = Ok (Some host, d).
 Proof. exact host_default_ipv6. Qed.
 Print Assumptions C15_host_default_ipv6.
 
-(* the full statement "for every host ... IPv6 with or without scope" fails for a scope id that
-   contains ']' (known finding H1): escape_ipv6 brackets it, parse_host_port cannot undo that *)
-Definition C15_host_port_full_statement : Prop :=
-  forall host port, parse_host_port (escape_ipv6 true host ++ [58%N] ++ dec_of_Z port) VNone = Ok (Some host, Some port).
-Theorem C15_host_port_full_refuted : ~ C15_host_port_full_statement.
-Proof. exact host_port_full_refuted. Qed.
-Print Assumptions C15_host_port_full_refuted.
+(* what stays excluded: for hosts escape_ipv6 does not bracket the side conditions are needed —
+   e.g. 'a:b' (one ':', refused by is_valid_ipv6) is read back as host 'a:b:80' without a port *)
+Definition C15_host_port_unescaped_full_statement : Prop :=
+  forall host port, parse_host_port (escape_ipv6 false host ++ [58%N] ++ dec_of_Z port) VNone = Ok (Some host, Some port).
+Theorem C15_host_port_unescaped_refuted : ~ C15_host_port_unescaped_full_statement.
+Proof. exact host_port_unescaped_refuted. Qed.
+Print Assumptions C15_host_port_unescaped_refuted.
 
 (* ---------------------------------------------------------------- urlsplit *)
 
